@@ -351,7 +351,7 @@ def _solve(idx_timeout):
         # satisfiable query is `unknown` after 4 s by default and `sat` in 10 ms with another phase selection).
         # (array.extensional=false finds models fastest but they can violate extensionality: measured spurious
         # refutation of an equality of two pointwise-equal arrays — not used.)
-        portfolio = [({}, 0.4), ({"smt.phase_selection": 0}, 0.2), ({"smt.case_split": 3}, 0.2),
+        portfolio = [({}, 0.4), ({"smt.phase_selection": 0}, 0.2), ({"smt.auto_config": False, "smt.case_split": 3}, 0.2),
                      ({"smt.random_seed": 7}, 0.2)]
         r = z3.unknown
         s = None
